@@ -93,3 +93,35 @@
         assert(sk2.tr@ == sk.tr@);
         lemma_sign_spec_indep(sig@, sk, sk2, e, s1, s2, t0, mu, rnd, BETA as int, GAMMA1 as int, GAMMA2 as int, OMEGA as int, TAU as int, LAMBDA_DIV4 as int);
     }
+    // C04: key generation is a function of the seed: two key pairs satisfying the key-generation postcondition for the same seed serialise
+    // to the same public-key and private-key bytes (the FIPS 204 pkEncode / skEncode outputs of KeyGen_internal(xi))
+    pub proof fn lemma_c04_det_api(xi: Seq<u8>, pk: PublicKey, sk: PrivateKey, pk2: PublicKey, sk2: PrivateKey,
+            bpk: [u8; PK_LEN], bpk2: [u8; PK_LEN], bsk: [u8; SK_LEN], bsk2: [u8; SK_LEN])
+        requires KG::kg_post(xi, pk, sk), KG::kg_post(xi, pk2, sk2), pk.sd_into_post(bpk), pk2.sd_into_post(bpk2), sk.sd_into_post(bsk), sk2.sd_into_post(bsk2),
+        ensures bpk@ == bpk2@, bsk@ == bsk2@,
+    {
+        lemma_params(); lemma_bitlen_consts();
+        let e = ETA as int;
+        let (a, s1, s2, pkb) = choose|a: [[T; L]; K], s1: [R; L], s2: [R; K], pkb: Seq<u8>| #[trigger] kg_wit(xi, e, pk, sk, a, s1, s2, pkb);
+        let (b, r1, r2, pkc) = choose|a: [[T; L]; K], s1: [R; L], s2: [R; K], pkb: Seq<u8>| #[trigger] kg_wit(xi, e, pk2, sk2, a, s1, s2, pkb);
+        assert(kg_wit(xi, e, pk, sk, a, s1, s2, pkb) && kg_wit(xi, e, pk2, sk2, b, r1, r2, pkc));
+        lemma_expand_a_unique(pk.rho@, a, b);
+        let st = shake256(keygen_seed_input(xi, K as int, L as int));
+        lemma_expand_s_unique(stream_take(st, 32, 64), e, s1, s2, r1, r2);
+        let t1 = kg_t1(a, vec_ints(s1), vec_ints(s2)); let t0 = kg_t0(a, vec_ints(s1), vec_ints(s2));
+        // public key bytes
+        assert forall|i: int, j: int| 0 <= i < K && 0 <= j < 256 implies #[trigger] field(pk_t1_bytes(pkb, i), 10, j) == field(pk_t1_bytes(pkc, i), 10, j) by {
+            assert(field(pk_t1_bytes(pkb, i), 10, j) == t1[i][j]);
+        }
+        lemma_pk_bytes_unique(pkb, pkc, K as int);
+        assert(pk.tr@ == pk2.tr@);
+        assert forall|i: int, j: int| 0 <= i < K && 0 <= j < 256 implies #[trigger] field(pk_t1_bytes(bpk@, i), 10, j) == field(pk_t1_bytes(bpk2@, i), 10, j) by {
+            assert(field(pk_t1_bytes(bpk@, i), 10, j) == t1[i][j]);
+            assert(field(pk_t1_bytes(bpk2@, i), 10, j) == t1[i][j]);
+        }
+        lemma_pk_bytes_unique(bpk@, bpk2@, K as int);
+        // private key bytes
+        assert(sk_vecs_are(bsk@, e, K as int, L as int, vec_ints(s1), vec_ints(s2), t0));
+        assert(sk_vecs_are(bsk2@, e, K as int, L as int, vec_ints(s1), vec_ints(s2), t0));
+        lemma_sk_bytes_unique(bsk@, bsk2@, e, K as int, L as int);
+    }
